@@ -289,7 +289,7 @@ func runScenarioT(sc scenario) ([]phaseRec, string, timing) {
 			// parked in a wait the census recognises, or something still on its way): the scenario must not count as
 			// agreement.  A label that is never enabled makes the replay fail, so the driver goes to its search.
 			note = "state reached but quiescence not established within the time limit; " + note
-			rec.resolved = append(append([]label{}, rec.resolved...), label{kind: aSendStep, i: 9999})
+			rec.resolved = append(append([]label{}, rec.resolved...), label{kind: aSendStep, i: 999})
 			pollStats.notQuiescent++
 		}
 		recs = append(recs, rec)
@@ -445,7 +445,7 @@ func decodeReplay(s string) (scenario, error) {
 func main() {
 	vh.Main("c16", func(e *vh.Env) {
 		timingDropped, timingRetries := 0, 0
-		generated, emitted := 0, 0
+		generated, emitted, planned := 0, 0, 0
 		emit := func(sc scenario) {
 			generated++
 			if sc.pace == 0 {
@@ -499,7 +499,9 @@ func main() {
 		}
 	gen:
 		for rep := 0; rep < reps; rep++ {
-			for _, sc := range generate(e) {
+			scs := generate(e)
+			planned += len(scs)
+			for _, sc := range scs {
 				emit(sc)
 				if pollStats.mismatches >= maxMismatches {
 					e.Meta["stopped_early"] = fmt.Sprintf("after %d scenarios in which the implementation did not reach any state the model allows", pollStats.mismatches)
@@ -509,13 +511,14 @@ func main() {
 		}
 		e.Meta["scenarios_where_model_and_implementation_differ"] = pollStats.mismatches
 		e.Meta["scenarios_where_quiescence_was_not_established"] = pollStats.notQuiescent
-		e.Meta["scenarios_generated"] = generated
+		e.Meta["scenarios_planned"] = planned
+		e.Meta["scenarios_run"] = generated
 		// a run that stopped early, or emitted far fewer cases than it generated scenarios, is not evidence of anything:
 		// it ends with a case that fails the replay (never with a quiet OK over a handful of cases)
-		if _, stopped := e.Meta["stopped_early"]; stopped || emitted*2 < generated {
-			why := fmt.Sprintf("the harness emitted %d cases for %d generated scenarios (stopped early: %v; %d scenarios without agreement, %d of them without established quiescence)",
-				emitted, generated, stopped, pollStats.mismatches, pollStats.notQuiescent)
-			e.Emit(vh.Case{Coq: "mkCase 0%Z [mkPh false [] [On 9999 SendStep] (0%Z, [])]", Class: "harness-degenerate", Nontrivial: false,
+		if _, stopped := e.Meta["stopped_early"]; stopped || emitted*2 < planned-timingDropped {
+			why := fmt.Sprintf("the harness emitted %d cases for %d planned scenarios (stopped early: %v; %d scenarios without agreement, %d of them without established quiescence)",
+				emitted, planned, stopped, pollStats.mismatches, pollStats.notQuiescent)
+			e.Emit(vh.Case{Coq: "mkCase 0%Z [mkPh false [] [On 999 SendStep] (0%Z, [])]", Class: "harness-degenerate", Nontrivial: false,
 				Desc: map[string]interface{}{"class": "harness-degenerate", "why": why}})
 		}
 		e.Meta["slow_drain_timing_not_established"] = timingDropped
